@@ -35,7 +35,7 @@ FAULT_OPS = ("alloc", "clock_tick", "clock_jump", "clock_freeze")
 # (probes "epoch_address_reused" / "ephemeral_id" only fire if the code under test calls id() on temporaries,
 #  which the repaired tree no longer does; they are kept for mutants and not required to be non-zero)
 PROBES = ["refinement_rounds_ge_2", "timeout_fired", "clock_went_backwards",
-          "symmetric_family", "same_hypergraph_object_reanalysed", "network_edited_between_analyses", "analyser_object_reused", "depth_limited_call", "wl_checked", "twin_compared", "neighbour_compared", "flagged_partial_answer", "slow_clock_default_timeout"]
+          "symmetric_family", "same_hypergraph_object_reanalysed", "network_edited_between_analyses", "call_relying_on_signature_defaults", "analyser_object_reused", "depth_limited_call", "wl_checked", "twin_compared", "neighbour_compared", "flagged_partial_answer", "slow_clock_default_timeout"]
 REAL = ["synkit.CRN.Topo.wl_canon.WLCanonicalizer / wl_canonical (sound checks only: isomorphic to view, colour classes coarsen true orbits, estimate >= true count, twin histograms equal)",
         "synkit.CRN.Topo.canon.CRNCanonicalizer (_init_part/_sig/_refine/_label/_search/_canon, summary/graph/orbits)",
         "synkit.CRN.Topo.automorphism.CRNAutomorphism.summary / has_nontrivial_automorphism / detect_automorphisms",
@@ -225,15 +225,20 @@ def generate(seed: int, tier: str = "quick") -> Dict[str, Any]:
         which = rng.choice(["net", "net", "twin", "twin", "nbr"])
         tmo = rng.choice([None, None, None, 1e9]) if not clocky else rng.choice([None, None, 0, 0.5, 5, 1e9])
         if rng.random() < 0.12:
-            ops.append({"op": "wl", "s": s(), "which": which, "flags": list(flags), "api": rng.choice(["class", "func"])})
+            ops.append({"op": "wl", "s": s(), "which": which, "flags": list(flags), "api": rng.choice(["class", "func"]),
+                        "bare": rng.random() < 0.4})
         elif rng.random() < 0.6:
             ops.append({"op": "canon", "s": s(), "which": which, "timeout": tmo, "flags": list(flags),
                         "api": rng.choice(["summary", "summary", "graph", "canonical"]),
-                        "max_depth": rng.choice([None, None, None, None, 0, 1, 2, 3]), "reuse": rng.random() < 0.6})
+                        "max_depth": rng.choice([None, None, None, None, 0, 1, 2, 3]), "reuse": rng.random() < 0.6,
+                        "bare": rng.random() < 0.4})
         else:
             ops.append({"op": "aut", "s": s(), "which": which, "flags": list(flags), "timeout": (tmo if rng.random() < 0.7 else "default"),
                         "max_count": rng.choice([100, 1000, 5000, 3]),
-                        "api": rng.choice(["summary", "summary", "detect", "nontrivial", "iter"]), "reuse": rng.random() < 0.6})
+                        "api": rng.choice(["summary", "summary", "detect", "nontrivial", "iter"]), "reuse": rng.random() < 0.6,
+                        "bare": rng.random() < 0.4})
+            if ops[-1]["api"] == "detect" and rng.random() < 0.3:
+                ops[-1]["max_count"] = None
     # follow-ups: the same analyser object serves a limited call and then an unlimited one (and vice versa)
     out_ops: List[Dict[str, Any]] = []
     for o in ops:
@@ -253,6 +258,8 @@ def generate(seed: int, tier: str = "quick") -> Dict[str, Any]:
                     f["max_depth"] = rng.choice([0, 1, 2])
             if f["op"] == "aut":
                 f["api"] = rng.choice(["summary", "iter", "nontrivial"])
+                if f.get("max_count") is None:
+                    f["max_count"] = 1000
             else:
                 f["api"] = rng.choice(["summary", "graph"])
             if clocky and rng.random() < 0.5:
@@ -345,6 +352,21 @@ def _run(case: Dict[str, Any], sim: Sim, world: World, clock: SimClock) -> None:
     canon_seen: Dict[Any, Any] = {}   # (which, view flags, version) -> canon signature (unflagged answers only)
 
     analysers: Dict[Any, Any] = {}
+
+    def flag_kwargs(op: Dict[str, Any]) -> Dict[str, Any]:
+        """Constructor / function kwargs; when a flag equals its documented default (include_rule=False,
+        include_stoich=True, integer_ids=False) and the op says so, the default is relied upon."""
+        kw: Dict[str, Any] = {}
+        bare = bool(op.get("bare"))
+        if not (bare and bip is False):
+            kw["include_rule"] = bip
+        if not (bare and sto is True):
+            kw["include_stoich"] = sto
+        if not (bare and iid is False):
+            kw["integer_ids"] = iid
+        if bare and len(kw) < 3:
+            sim.probe("call_relying_on_signature_defaults")
+        return kw
 
     def analyser(kind: str, which: str, reuse: bool, ctor):
         """Long-lived analyser objects: the same instance serves several calls with different limits."""
@@ -448,9 +470,9 @@ def _run(case: Dict[str, Any], sim: Sim, world: World, clock: SimClock) -> None:
         if k == "wl":
             site = "WLCanonicalizer.summary"
             if op.get("api") == "func":
-                wl = wl_canonical(H, include_rule=bip, include_stoich=sto, integer_ids=iid)
+                wl = wl_canonical(H, **flag_kwargs(op))
             else:
-                wl = WLCanonicalizer(H, include_rule=bip, include_stoich=sto, integer_ids=iid)
+                wl = WLCanonicalizer(H, **flag_kwargs(op))
             ws = wl.summary()
             Gv = wl.G
             check_view(which, H, Gv)
@@ -488,10 +510,10 @@ def _run(case: Dict[str, Any], sim: Sim, world: World, clock: SimClock) -> None:
             flagged = False
             s: Optional[Dict[str, Any]] = None
             c = analyser("canon", which, bool(op.get("reuse")),
-                         lambda: CRNCanonicalizer(H, include_rule=bip, include_stoich=sto, integer_ids=iid))
+                         lambda: CRNCanonicalizer(H, **flag_kwargs(op)))
             try:
                 if op["api"] == "canonical":
-                    c = canonical(H, include_rule=bip, include_stoich=sto, integer_ids=iid, timeout_sec=tmo, max_depth=md)
+                    c = canonical(H, timeout_sec=tmo, max_depth=md, **flag_kwargs(op))
                     s = c.summary(timeout_sec=tmo, max_depth=md)
                 else:
                     if op["api"] == "graph" and unlimited:
@@ -579,12 +601,15 @@ def _run(case: Dict[str, Any], sim: Sim, world: World, clock: SimClock) -> None:
                                 "count": (s["automorphism_count"] if s else None), "sig": (canon_sig(s["canon_graph"], bip, sto) if (s and not flagged) else None)})
         else:  # aut
             tmo = op["timeout"]
-            mc = op["max_count"]
+            mc_arg = op["max_count"]            # None is documented for detect_automorphisms only ("a large default is used")
+            if mc_arg is None and op["api"] != "detect":
+                mc_arg = 1000
+            mc = 10_000_000 if mc_arg is None else mc_arg
             api = op["api"]
             site = {"summary": "CRNAutomorphism.summary", "detect": "detect_automorphisms", "iter": "CRNAutomorphism.iter",
                     "nontrivial": "CRNAutomorphism.has_nontrivial_automorphism"}[api]
             a = analyser("aut", which, bool(op.get("reuse")),
-                         lambda: CRNAutomorphism(H, include_rule=bip, include_stoich=sto, integer_ids=iid))
+                         lambda: CRNAutomorphism(H, **flag_kwargs(op)))
             eff_tmo: Optional[float]
             if api == "iter":
                 it_tmo = None if tmo == "default" else tmo
@@ -618,10 +643,10 @@ def _run(case: Dict[str, Any], sim: Sim, world: World, clock: SimClock) -> None:
                     eff_tmo = tmo
             elif api == "detect":
                 if tmo == "default":
-                    res = detect_automorphisms(H, include_rule=bip, include_stoich=sto, integer_ids=iid, max_count=mc)
+                    res = detect_automorphisms(H, max_count=mc_arg, **flag_kwargs(op))
                     eff_tmo = 10.0
                 else:
-                    res = detect_automorphisms(H, include_rule=bip, include_stoich=sto, integer_ids=iid, max_count=mc, timeout_sec=tmo)
+                    res = detect_automorphisms(H, max_count=mc_arg, timeout_sec=tmo, **flag_kwargs(op))
                     eff_tmo = 1e9 if tmo is None else tmo
             else:
                 if tmo == "default":
